@@ -482,6 +482,7 @@ func corpus(list string) {
 type layoutRec struct {
 	Prog []templang.Node `json:"prog"`
 	Fmt  []templang.Node `json:"fmt"`
+	FmtL []templang.Node `json:"fmtl"` // prediction for the loose spelling (attributes on their own lines)
 }
 
 // layout compares the layout model's prediction with the real formatter. A difference is model drift
@@ -511,8 +512,12 @@ func layout(path string) {
 			r := &results[w]
 			for i := w; i < len(all); i += workers {
 				rec := all[i]
-				want := src(rec.Fmt, 0)
 				for v := templang.Variant(0); v < templang.Variants; v++ {
+					pred := rec.Fmt
+					if v == 2 {
+						pred = rec.FmtL
+					}
+					want := templang.Header("p") + templang.FormatPrint(pred, v)
 					s := src(rec.Prog, v)
 					got, err := realFormat(s)
 					r.n++
